@@ -104,6 +104,8 @@ def cases(tier, seed, flavour):
                 chunk = 729 if flavour != 'asan' else 81       # asan: ~5 ms per evaluation, keep cases short
                 for lo in range(0, tot, chunk):
                     yield {'part': 'sparse', 'tc': tc, 'm': m, 'n': n, 'lo': lo, 'hi': min(tot, lo + chunk), 'seed': s}
+    for tc in 'dz':
+        yield {'part': 'sparse-inplace', 'tc': tc}
     for code in ARRAY_CODES:
         yield {'part': 'imp-array', 'code': code}
     for fmt in MV_FORMATS:
@@ -310,6 +312,8 @@ def run(case):
             _run_file(case, c)
         elif part == 'sparse':
             _run_sparse(case, c)
+        elif part == 'sparse-inplace':
+            _run_sparse_inplace(case, c)
         elif part == 'imp-array':
             _run_imp_array(case, c)
         elif part == 'imp-mv':
@@ -325,6 +329,47 @@ def run(case):
         c.bad('C20:%s:unexpected-exception:%s' % (part, type(e).__name__), traceback.format_exc()[-1500:])
     c.asan(part)
     return c.result()
+
+
+def _run_sparse_inplace(case, c):
+    """in-place operators on a sparse matrix act on the object every alias refers to (all shapes <= 2x2 with every
+    non-empty pattern of the left operand, sparse and scalar right operands)."""
+    from cvxopt import spmatrix, matrix
+    tc = case['tc']
+    unit = complex(1.0, -2.0) if tc == 'z' else 1.0
+    for (m, n) in ((1, 1), (2, 1), (1, 2), (2, 2)):
+        N = m * n
+        for mask in range(1, 2 ** N):
+            cells = [p for p in range(N) if mask >> p & 1]
+            va = [unit * (p + 1) for p in cells]
+            other = [(p + 1) % N for p in cells]
+            vb = [unit * 0.5 * (p + 2) for p in other]
+
+            def dense(X):
+                return list(matrix(X))
+            for op in ('+=S', '-=S', '*=2', '/=2', '-=S(other pattern)', '+=S(other pattern)'):
+                A = spmatrix(va, [p % m for p in cells], [p // m for p in cells], (m, n), tc)
+                pat = other if 'other' in op else cells
+                S = spmatrix(vb, [p % m for p in pat], [p // m for p in pat], (m, n), tc)
+                B = A
+                a0, s0 = dense(A), dense(S)
+                if op[:3] == '+=S':
+                    want = [x + y for x, y in zip(a0, s0)]; A += S
+                elif op[:3] == '-=S':
+                    want = [x - y for x, y in zip(a0, s0)]; A -= S
+                elif op == '*=2':
+                    want = [x * 2 for x in a0]; A *= 2
+                else:
+                    want = [x / 2 for x in a0]; A /= 2
+                c.ev()
+                sub = {'tc': tc, 'size': [m, n], 'cells': cells, 'op': op}
+                key = 'C20:sparse-inplace:%s' % op.split('(')[0]
+                if A is not B:
+                    c.bad(key + ':new-object', 'A %s rebinds A to a new object; the alias still holds %r' % (op, dense(B)), sub)
+                elif dense(B) != want:
+                    c.bad(key + ':value', 'after A %s the matrix holds %r, expected %r' % (op, dense(B), want), sub)
+                else:
+                    c.out('sparse inplace ok')
 
 
 def _run_gate(case):
